@@ -1306,8 +1306,10 @@ ASSUMPTIONS = [
 # slice -> (MEANING for every program up to this size, sampling probability above it)
 MEANING_PLAN = {
     "quick": {"scope": (4, 0.06), "kinds": (2, 0.3), "deco": (2, 0.4), "prefix": (4, 1.0)},
-    "thorough": {"scope": (5, 0.1), "kinds": (3, 1.0), "kinds4": (3, 0.15), "deco": (3, 0.05), "prefix": (5, 1.0)},
+    "thorough": {"scope": (4, 0.0), "kinds": (2, 0.5), "kinds4": (3, 0.05), "deco": (3, 0.03), "prefix": (4, 0.3)},
 }
+# sampling probability by size for the deep scope slice of the thorough tier
+SCOPE_THOROUGH = {5: 0.25, 6: 0.03}
 
 
 def select_rows(rows, tier, rng):
@@ -1319,6 +1321,8 @@ def select_rows(rows, tier, rng):
         n = len(row["prog"])
         sl = row["slice"]
         full, prob = MEANING_PLAN[tier].get(sl, (3, 0.1))
+        if tier == "thorough" and sl == "scope":
+            prob = SCOPE_THOROUGH.get(n, 0.0)
         if n <= full or rng.random() < prob:
             meaning.append(ri)
         if sl == "scope" and row["conf"]["pep"] and n <= (3 if tier == "quick" else 4) \
